@@ -27,6 +27,7 @@ var c06Populations = []population{
 	{"node", func(c *GenCfg) { c.NoEdgeNode = false; c.OnlyNodes = true }},
 	{"remote-reference", func(c *GenCfg) { c.NoRemoteRef = false }},
 	{"local-reference", func(c *GenCfg) { c.NoMarkers = false; c.NoRefs = false }},
+	{"local-reference", func(c *GenCfg) { c.NoMarkers = false; c.NoRefs = false; c.MarkerHeavy = true }},
 	{"rid-not-url", func(c *GenCfg) { c.UrlRids = false }},
 	{"marker", func(c *GenCfg) { c.NoMarkers = false; c.NoRefs = true }},
 	{"time", func(c *GenCfg) { c.NoTimes = false }},
@@ -82,6 +83,16 @@ func runC06(r *Run) {
 		evs := g.Doc()
 		text := EventsText(evs)
 		key := pop.key
+		if key == "local-reference" {
+			// the recorded finding is about one shape only; every other document with local references
+			// belongs to the healthy core
+			if refInKeyPosition(evs) {
+				key = "local-reference:ref-as-key"
+			} else {
+				key = ""
+				r.out.Count("local-reference:healthy-shapes")
+			}
+		}
 		sfx := ""
 		if key != "" {
 			sfx = "|" + key
@@ -149,6 +160,56 @@ func runC06(r *Run) {
 			r.out.Line("prop", id, "TREE.EQ", []string{"1h", "0h", EventsText(back), EventsText(evs2)}, "1")
 		}
 	})
+}
+
+// refInKeyPosition: does a local reference stand where a map key is expected? (the one shape of
+// local references that the pinned builders get wrong: recorded finding C06/local-reference:ref-as-key)
+func refInKeyPosition(evs []Event) bool {
+	type frame struct {
+		kind  string
+		count int
+	}
+	var stack []frame
+	object := func() {
+		for len(stack) > 0 {
+			top := &stack[len(stack)-1]
+			top.count++
+			if top.kind == "e" && top.count == 3 {
+				stack = stack[:len(stack)-1] // an edge ends with its third component
+				continue
+			}
+			return
+		}
+	}
+	for i := 0; i < len(evs); i++ {
+		switch evs[i].K {
+		case "bd", "ed", "v", "pad", "cm", "mk", "ac", "ad":
+		case "ref":
+			if len(stack) > 0 && stack[len(stack)-1].kind == "m" && stack[len(stack)-1].count%2 == 0 {
+				return true
+			}
+			object()
+		case "l", "m", "r", "nd", "e":
+			k := evs[i].K
+			if k != "m" && k != "e" {
+				k = "l"
+			}
+			stack = append(stack, frame{kind: k})
+		case "rt":
+			stack = append(stack, frame{kind: "rt"})
+		case "end":
+			if len(stack) > 0 {
+				k := stack[len(stack)-1].kind
+				stack = stack[:len(stack)-1]
+				if k != "rt" {
+					object()
+				}
+			}
+		default:
+			object()
+		}
+	}
+	return false
 }
 
 func joinKey(a, b string) string {
